@@ -6,6 +6,7 @@ package main
 import (
 	"fmt"
 	"go/ast"
+	"go/token"
 	"go/types"
 	"os"
 	"path/filepath"
@@ -405,4 +406,68 @@ func init() {
 		}
 		return Val{}, x.store(s, lv, args[1].T)
 	}
+}
+
+// declaredLocals lists the identifiers a function body declares (:=, var, range, type switch,
+// nested function literals excluded), in source order. Contracts record this list (`locals (...)`)
+// so that a local that was renamed in the code can still be found by its position.
+func declaredLocals(fn *ssa.Function) []string {
+	syn := fn.Syntax()
+	if syn == nil {
+		return nil
+	}
+	var body *ast.BlockStmt
+	switch d := syn.(type) {
+	case *ast.FuncDecl:
+		body = d.Body
+	case *ast.FuncLit:
+		body = d.Body
+	}
+	if body == nil {
+		return nil
+	}
+	var out []string
+	add := func(id *ast.Ident) {
+		if id != nil && id.Name != "_" {
+			out = append(out, id.Name)
+		}
+	}
+	seenDef := map[*ast.Ident]bool{}
+	ast.Inspect(body, func(n ast.Node) bool {
+		switch st := n.(type) {
+		case *ast.FuncLit:
+			return false
+		case *ast.AssignStmt:
+			if st.Tok == token.DEFINE {
+				for _, l := range st.Lhs {
+					if id, ok := l.(*ast.Ident); ok && !seenDef[id] {
+						seenDef[id] = true
+						add(id)
+					}
+				}
+			}
+		case *ast.ValueSpec:
+			for _, id := range st.Names {
+				add(id)
+			}
+		case *ast.RangeStmt:
+			if st.Tok == token.DEFINE {
+				if id, ok := st.Key.(*ast.Ident); ok {
+					add(id)
+				}
+				if id, ok := st.Value.(*ast.Ident); ok {
+					add(id)
+				}
+			}
+		case *ast.TypeSwitchStmt:
+			if as, ok := st.Assign.(*ast.AssignStmt); ok && as.Tok == token.DEFINE {
+				if id, ok := as.Lhs[0].(*ast.Ident); ok {
+					seenDef[id] = true
+					add(id)
+				}
+			}
+		}
+		return true
+	})
+	return out
 }
